@@ -6,6 +6,9 @@ Three generators, one oracle.
       3 files x {4 documents over the names p,q + 1 document that also tries to define
       `default`/`public` + bad JSON + remove} to depth 3 (quick) / 4 (thorough), plus a 2-file
       sub-alphabet one level deeper (the shortest stale-cache scenario needs 4 events).
+(i')  the same kind of words explored level by level to greater depth (8 / 11 events), a word
+      being extended only if the situation it leads to has not been reached before
+      (explore_frontier): long take-over / drop / re-take / remove chains over two or three files.
 (ii)  Hypothesis sequences: up to 6 files, 5 names, several events between scans, touch (same
       content, new mtime), repair (last valid content written back), semantic breaks that carry
       a valid extra policy (rejected *as a whole*), non-UTF-8 files, file names in any sort order.
@@ -486,7 +489,79 @@ def _raw_of(ev):
     return ev["text"].encode("utf-8")
 
 
-def run_seq(spec, base):
+def _norm_times(o, ranks, strip=""):
+    return _norm_times_(_strip_dir(o, strip) if strip else o, ranks)
+
+
+def _strip_dir(o, prefix):
+    if isinstance(o, str):
+        return o.replace(prefix, "")
+    if isinstance(o, dict):
+        return dict((_strip_dir(k, prefix), _strip_dir(v, prefix)) for k, v in o.items())
+    if isinstance(o, (list, tuple)):
+        return [_strip_dir(v, prefix) for v in o]
+    if isinstance(o, (set, frozenset)):
+        return set(_strip_dir(v, prefix) for v in o)
+    return o
+
+
+def _norm_times_(o, ranks):
+    """JSON-able copy of o in which every harness time stamp / load number is replaced by its
+    rank (absolute values differ between words that reach the same situation)."""
+    if isinstance(o, bool) or o is None or isinstance(o, str):
+        return o
+    if isinstance(o, (int, float)):
+        return "#%d" % ranks[o] if o in ranks else o
+    if isinstance(o, bytes):
+        return o.hex()
+    if isinstance(o, dict):
+        return sorted(((str(k), _norm_times_(k, ranks)), _norm_times_(v, ranks))
+                      for k, v in o.items())
+    if isinstance(o, (list, tuple)):
+        return [_norm_times_(v, ranks) for v in o]
+    if isinstance(o, (set, frozenset)):
+        return sorted(str(_norm_times_(v, ranks)) for v in o)
+    if hasattr(o, "name") and hasattr(o, "value"):
+        return "E:" + str(o.name)
+    return repr(o)
+
+
+def _times_in(o, acc):
+    if isinstance(o, bool):
+        return
+    if isinstance(o, (int, float)):
+        if o >= T0:
+            acc.add(o)
+    elif isinstance(o, dict):
+        for k, v in o.items():
+            _times_in(k, acc)
+            _times_in(v, acc)
+    elif isinstance(o, (list, tuple, set, frozenset)):
+        for v in o:
+            _times_in(v, acc)
+
+
+def _state_key(mon, store, model, disk, directory):
+    """Abstract state after a word: directory contents, everything the monitor object holds
+    (all instance attributes but its logger/event), the store, and the part of the model its
+    verdicts depend on.  Only used to prune words that lead to a situation already expanded."""
+    mvars = dict((k, v) for k, v in vars(mon).items()
+                 if not k.startswith("_") and k not in ("logger", "halt_trigger", "policy_store",
+                                                        "policy_directory"))
+    impl = [mvars, dict(store), dict((f, raw) for f, (raw, mt) in disk.items()),
+            dict((f, mt) for f, (raw, mt) in disk.items())]
+    acc = set()
+    _times_in(impl, acc)
+    ranks = dict((v, i) for i, v in enumerate(sorted(acc)))
+    epochs = sorted(set(x for iv in model.num.values() for x in iv))
+    eranks = dict((v, i) for i, v in enumerate(epochs))
+    mod = [model.eff, dict((f, [eranks[a], eranks[b]]) for f, (a, b) in model.num.items()),
+           sorted(model.tainted), sorted(model.lastbad), sorted(model.seen)]
+    return core.canon([_norm_times(impl, ranks, directory.rstrip("/") + "/"),
+                       _norm_times(mod, {})])
+
+
+def run_seq(spec, base, want_state=False):
     """Execute one sequence spec.  -> dict(buckets, labels, nontrivial, excluded)."""
     fnames = spec["fnames"]
     events = spec["events"]
@@ -580,6 +655,8 @@ def run_seq(spec, base):
                 break
         if ok and state["dirty"]:
             ok = scan()
+        if ok and want_state and not res["buckets"] and not res["excluded"]:
+            res["state"] = _state_key(mon, store, model, disk, d)
         if ok:
             ok = scan(check_idle=True)
         if not state["dead"] and cpolicy.policies != pristine:
@@ -773,6 +850,8 @@ ALPHABETS = {
     "small": (2, DOCS[:3], True),               # 2 x (3 docs + break + remove) = 10
     "three": (3, DOCS[:2], False),              # 3 x (2 docs + remove) = 9: cache stacks of 3 files
     "deep": (2, DOCS[:2], False),               # 2 x (2 docs + remove) = 6: long edit ping-pong
+    # 2 x (p as v1, p as v2, a document without p, remove) = 8: take-over / drop / re-take chains
+    "edit": (2, [DOCS[0], _j({"p": {"SECRET_DATA": {"DESTROY": "ALLOW_OWNER"}}}), DOCS[2]], False),
 }
 
 
@@ -810,6 +889,58 @@ def w_exhaustive(which, depth, shard, nshards):
     finally:
         shutil.rmtree(base, ignore_errors=True)
     return col
+
+
+def w_frontier(which, words, shard):
+    """Run the given words (lists of letter indices); -> collector + [(state key, word)]."""
+    col = core.Collector(PID)
+    base = tempfile.mkdtemp(prefix="verif-c18-")
+    out = []
+    try:
+        fnames, letters = _alphabet(which)
+        for w in words:
+            spec = {"part": "seq", "fnames": fnames, "auto_scan": True,
+                    "events": [letters[i] for i in w]}
+            res = run_seq(spec, base, want_state=True)
+            _record(col, spec, res, ["seq:frontier-%s-depth-%d" % (which, len(w))])
+            col.bump("scans", res["scans"])
+            if "state" in res:
+                out.append((res["state"], w))
+    finally:
+        shutil.rmtree(base, ignore_errors=True)
+    d = col.to_dict()
+    d["_frontier"] = out
+    return d
+
+
+def explore_frontier(which, depth, ns):
+    """Level-synchronous exploration of ALL words up to `depth` over the alphabet, modulo
+    situations already expanded: a word is extended only if the situation it leads to (see
+    _state_key) has not been reached by an earlier word.  -> (collector dicts, stats)."""
+    fnames, letters = _alphabet(which)
+    seen = set()
+    reps = [[]]
+    dicts = []
+    stats = []
+    for level in range(1, depth + 1):
+        cand = [w + [i] for w in reps for i in range(len(letters))]
+        shards = [cand[s::ns] for s in range(ns)]
+        res = core.run_sharded("vlib.props.c18", "w_frontier",
+                               [(which, sh, s) for s, sh in enumerate(shards) if sh])
+        new = []
+        for d in res:
+            new.extend(d.pop("_frontier"))
+            dicts.append(d)
+        new.sort(key=lambda kw: kw[1])
+        reps = []
+        for key, w in new:
+            if key not in seen:
+                seen.add(key)
+                reps.append(w)
+        stats.append((level, len(cand), len(reps)))
+        if not reps:
+            break
+    return dicts, stats
 
 
 # ------------------------------------------------------------------ strategies for part (ii)
@@ -1175,15 +1306,29 @@ def run(ctx):
     dicts = []
     for fn in ("w_exhaustive", "w_random_seq", "w_enum_docs", "w_random_docs"):
         dicts.extend(core.run_sharded("vlib.props.c18", fn, by_fn[fn]))
+    fdepth = {"edit": ctx.n(8, 11), "small": ctx.n(6, 8), "three": ctx.n(5, 7)}
+    fstats = {}
+    for which in ("edit", "small", "three"):
+        fd, st = explore_frontier(which, fdepth[which], ns)
+        dicts.extend(fd)
+        fstats[which] = st
     col = core.merged(PID, dicts)
+    col.extra["frontier_levels"] = dict(
+        (w, ["depth %d: %d words run, %d new situations" % s for s in st])
+        for w, st in fstats.items())
     col.extra["exhaustive"] = True
     col.extra["exhaustive_scope"] = (
         "all words, scan after every event, of length %d over 21 letters (3 files x {4 documents, "
         "reserved-name document, bad JSON, remove}), length %d over 10 letters (2 files x {3 "
         "documents, bad JSON, remove}), length %d over 9 letters (3 files x {2 documents, "
-        "remove}), length %d over 6 letters (2 files x {2 documents, remove}); the random parts "
-        "and the document part are not exhaustive"
-        % (depths["full"], depths["small"], depths["three"], depths["deep"]))
+        "remove}), length %d over 6 letters (2 files x {2 documents, remove}); in addition all "
+        "words up to length %d over 8 letters (2 files x {p as v1, p as v2, document without p, "
+        "remove}), %d over the 10 letters and %d over the 9 letters above, where a word is only "
+        "extended if the situation it leads to (directory contents, every attribute of the "
+        "monitor object, the store, the model's state; time stamps by rank) was not reached by "
+        "an earlier word; the random parts and the document part are not exhaustive"
+        % (depths["full"], depths["small"], depths["three"], depths["deep"],
+           fdepth["edit"], fdepth["small"], fdepth["three"]))
     return col
 
 
